@@ -103,6 +103,14 @@ PROBES = [
     ('nested witnesses', [_P(_P(_A)), _P(_P(A.neg(_A)))], _P(_and(_P(_A), _P(A.neg(_A))))),
     ('existential agglomeration', [_X(_x, _F(_x)), _X(_x, _G(_x))], _X(_x, _and(_F(_x), _G(_x)))),
     ('existential to universal', [_X(_x, _F(_x))], _L(_x, _F(_x))),
+    ('instance to universal', [_F(_a)], _L(_x, _F(_x))),
+    ('two instances to universal', [_F(_a), _F(_b)], _L(_x, _F(_x))),
+    ('negated instance to negated existential', [A.neg(_F(_a))], A.neg(_X(_x, _F(_x)))),
+    ('negated instance and an instance to negated existential', [A.neg(_F(_a)), _F(_b)], A.neg(_X(_x, _F(_x)))),
+    ('negated instance to universal negation', [A.neg(_F(_a))], _L(_x, A.neg(_F(_x)))),
+    ('not all to none', [A.neg(_L(_x, _F(_x)))], A.neg(_X(_x, _F(_x)))),
+    ('some to this one', [_X(_x, _F(_x))], _F(_a)),
+    ('some not to this one not', [_X(_x, A.neg(_F(_x)))], A.neg(_F(_a))),
 ]
 
 
